@@ -21,9 +21,15 @@ USER_SRC = '''\
 class Boom(Exception):
   pass
 
+
+class Abort(BaseException):
+  """Not an Exception: like KeyboardInterrupt, GeneratorExit, CancelledError."""
+
+
 H = None
 
 %s
+node_l = lambda spec: H.lam_body(spec)
 '''
 
 NODE_SRC = '''\
@@ -32,6 +38,8 @@ def node_%(n)s(spec):
   i = 0
   for link in spec['children']:
     if spec['raise_at'] == i:
+      if spec['raise_kind'] == 1:
+        raise Abort(spec['id'])
       raise Boom(spec['id'])
     kind = link['kind']
     if kind == 'plain':
@@ -45,20 +53,23 @@ def node_%(n)s(spec):
       try:
         fn(link['spec'])
         H.post(spec, link)
-      except Boom:
+      except (Boom, Abort):
         H.caught(spec, link)
     else:
       H.call_child(spec, link)
     H.mid(spec)
     i += 1
   if spec['raise_at'] == i:
+    if spec['raise_kind'] == 1:
+      raise Abort(spec['id'])
     raise Boom(spec['id'])
   H.leave(spec)
   return spec['id']
 
 '''
 
-NODE_NAMES = ('a', 'b', 'c')
+NODE_NAMES = ('a', 'b', 'c')      # def nodes (source generated per name)
+ALL_NODES = NODE_NAMES + ('l',)     # + a lambda node (converted through with_function_scope)
 FEATSETS = [(), ('EQUALITY_OPERATORS',), ('BUILTIN_FUNCTIONS', 'LISTS'),
             ('ASSERT_STATEMENTS', 'EQUALITY_OPERATORS', 'BUILTIN_FUNCTIONS', 'LISTS')]
 STATUSES = ('UNSPECIFIED', 'ENABLED', 'DISABLED')
@@ -75,7 +86,7 @@ def init_zygote(lane):
   mod = common.load_module('simuser_c16', path)
   Z['mod'] = mod
   Z['path'] = path
-  for name in ('enter', 'mid', 'leave', 'pre', 'post', 'caught', 'pick', 'call_child'):
+  for name in ('enter', 'mid', 'leave', 'pre', 'post', 'caught', 'pick', 'call_child', 'lam_body'):
     setattr(getattr(Harness, name), 'autograph_info__', None)
   # discover injection points with a throw-away conversion in a pristine world
   feats = tuple(getattr(malt.experimental.Feature, f) for f in FEATSETS[-1])
@@ -97,7 +108,7 @@ LINK_KINDS_ROOT = ['convert', 'convert', 'dnc', 'unspec', 'with', 'internal', 'i
 
 def _gen_link(rng, prefix, budget, depth, max_depth, root, n_shared):
   kind = rng.choice(LINK_KINDS_ROOT if root else LINK_KINDS_CHILD)
-  link = {'kind': kind, 'catch': root or rng.random() < 0.4, 'fn': rng.choice(NODE_NAMES)}
+  link = {'kind': kind, 'catch': root or rng.random() < 0.4, 'fn': rng.choice(ALL_NODES + NODE_NAMES)}
   if kind in ('convert', 'to_graph'):
     link['rec'] = rng.random() < 0.7
     link['feats'] = rng.randrange(len(FEATSETS))
@@ -133,7 +144,8 @@ def _gen_node(rng, prefix, budget, depth, max_depth, n_shared):
   raise_at = None
   if rng.random() < 0.3:
     raise_at = rng.randrange(len(children) + 1)
-  return {'id': nid, 'children': children, 'raise_at': raise_at}
+  return {'id': nid, 'children': children, 'raise_at': raise_at,
+          'raise_kind': 1 if (raise_at is not None and rng.random() < 0.3) else 0}
 
 
 def make_plan(seed, index, tier, sub):
@@ -233,13 +245,16 @@ class Harness(object):
     self.seen = {}                  # id(ctx) -> (ctx, tid)
     self.shared = [ag_ctx.ControlStatusCtx(getattr(ag_ctx.Status, s)) for s in plan['shared']]
     self.shared_ids = set(id(c) for c in self.shared)
-    self.nodes = {n: getattr(mod, 'node_' + n) for n in NODE_NAMES}
+    self.nodes = {n: getattr(mod, 'node_' + n) for n in ALL_NODES}
     self.boom = mod.Boom
+    self.abort = mod.Abort
     self.user_file = mod.__file__
     self.stats = {'nodes': 0, 'generated_nodes': 0, 'exc_crossings': 0, 'caught': 0,
                   'fallback_nodes': 0, 'to_graph_failed': 0, 'status_checks': 0,
                   'restore_checks': 0, 'max_region_depth': 0}
     self.switch_in_region = False
+    self.abstract = set()
+    self.clean = not plan['faults']
 
   # -- helpers ---------------------------------------------------------------
   def _st(self):
@@ -312,6 +327,10 @@ class Harness(object):
     self.stats['max_region_depth'] = max(self.stats['max_region_depth'], len(st.expect))
     st.trace.append('>%s%s' % (spec['id'], '*' if gen else ''))
     self._check_status(st, spec, 'enter')
+    # abstract state (for the evidence): the modelled status stacks of all threads
+    if len(self.abstract) < 400:
+      self.abstract.add(repr(sorted((t.tid, [e if not isinstance(e, tuple) else 'ctx' for e in t.expect])
+                                    for t in self.ts.values())))
 
   def mid(self, spec):
     self._check_status(self._st(), spec, 'mid')
@@ -324,6 +343,23 @@ class Harness(object):
 
   def pick(self, link):
     return self.nodes[link['fn']]
+
+  def lam_body(self, spec):
+    """Body of the lambda node: same protocol as the def nodes, driven from
+    harness code (a lambda cannot hold statements).  Plain children are native
+    calls made by this unconverted helper."""
+    self.enter(spec)
+    i = 0
+    for link in spec['children']:
+      if spec['raise_at'] == i:
+        raise (self.abort if spec.get('raise_kind') == 1 else self.boom)(spec['id'])
+      self.call_child(spec, link)
+      self.mid(spec)
+      i += 1
+    if spec['raise_at'] == i:
+      raise (self.abort if spec.get('raise_kind') == 1 else self.boom)(spec['id'])
+    self.leave(spec)
+    return spec['id']
 
   def pre(self, spec, link):
     st = self._st()
@@ -358,17 +394,19 @@ class Harness(object):
     self.pre(spec, link)
     try:
       self._invoke(st, link)
-    except Exception as e:   # noqa: BLE001
+    except BaseException as e:   # noqa: BLE001
+      if isinstance(e, sched.SimAbort):
+        raise
       st.trace.append('!%s' % link['spec']['id'])
       self.stats['exc_crossings'] += 1
-      if not isinstance(e, self.boom):
+      if not isinstance(e, (self.boom, self.abort)):
         self.viol('S5', 'foreign exception %s crossed the boundary of %s child %s: %s'
                   % (type(e).__name__, link['kind'], link['spec']['id'], str(e)[:120]),
                   sig='foreign-%s' % type(e).__name__)
         self._restore(st, link, 'raise')
         return
       self._restore(st, link, 'raise')
-      if not link['catch']:
+      if not (link['catch'] or link['kind'] == 'plain_try'):
         raise
       self.stats['caught'] += 1
       return
@@ -379,8 +417,8 @@ class Harness(object):
     kind = link['kind']
     fn = self.nodes[link['fn']]
     spec = link['spec']
-    if kind == 'native':
-      return fn(spec)
+    if kind in ('native', 'plain', 'plain_try'):
+      return fn(spec)      # (plain kinds reach here only below a lambda node)
     if kind == 'convert':
       feats = _feats(malt, link['feats'])
       return malt.convert(recursive=link['rec'], optional_features=feats,
@@ -446,7 +484,11 @@ def expected_status(link, pexp, generated, H):
       # the wrapper must not convert here (C13's policy); if it did anyway the
       # nested user-requested region overrides and C16 promises nothing
       return None if generated else 'DISABLED'
-    if link['ur'] and generated:
+    # In fault-free runs nothing can legitimately stop the conversion the user
+    # asked for (the node functions are convertible, not allow-listed): the
+    # node must then report ENABLED whether or not it is seen running generated
+    # code.  With injected faults a fallen-back node is only subject to S1.
+    if link['ur'] and (generated or H.clean):
       return 'ENABLED'
     return None
   if kind == 'dnc':
@@ -470,7 +512,7 @@ def expected_status(link, pexp, generated, H):
     if cs == 'ENABLED':
       return 'ENABLED'
     if cs == 'UNSPECIFIED':
-      if link['by_default'] and link['ur'] and generated:
+      if link['by_default'] and link['ur'] and (generated or H.clean):
         return 'ENABLED'
       return 'UNSPECIFIED'
     return None
@@ -493,7 +535,7 @@ def execute(lane, plan, schedule, rdir, keep_log=False):
   if plan.get('warm'):
     # pre-warm the conversion cache (single-threaded, before the simulation)
     import malt
-    for n in NODE_NAMES:
+    for n in ALL_NODES:
       for rec in (True, False):
         try:
           malt.to_graph(H.nodes[n], recursive=rec)
@@ -537,6 +579,8 @@ def execute(lane, plan, schedule, rdir, keep_log=False):
       'faults_fired': [list(x[:3]) for x in inj.fired_log],
       'stats': H.stats, 'probes': sim.probes,
       'switch_pairs': len(sim.switch_pairs),
+      'abstract': sorted('%08x' % (__import__('zlib').crc32(x.encode())) for x in H.abstract),
+      'switch_pair_hashes': sim.switch_pair_hashes(),
       'trace': {str(st.tid): ' '.join(st.trace)[:400] for st in H.ts.values()},
   }
   if keep_log:
@@ -615,6 +659,8 @@ def shrink_candidates(plan):
         yield x
     if node['raise_at'] is not None:
       yield ('noraise', path)
+      if node.get('raise_kind'):
+        yield ('boom', path)
   for i, t in enumerate(plan['threads']):
     for j, root in enumerate(t['roots']):
       for what, path in list(walk(root['spec'], [])):
@@ -626,6 +672,10 @@ def shrink_candidates(plan):
           del node['children'][path[-1]]
           if node['raise_at'] is not None and node['raise_at'] > len(node['children']):
             node['raise_at'] = len(node['children'])
+        elif what == 'boom':
+          for ci in path:
+            node = node['children'][ci]['spec']
+          node['raise_kind'] = 0
         else:
           for ci in path:
             node = node['children'][ci]['spec']
